@@ -97,9 +97,13 @@ def build_leaf(name):
         return M.TriangularFactoredPositiveDefiniteMatrix(arr(l["p1"]), factor_is_lower=l["lower"])
     if c == "DensePositiveDefiniteMatrix":
         if "with_factor" in l:
-            return M.DensePositiveDefiniteMatrix(arr(l["p1"]), factor=M.TriangularMatrix(arr(l["with_factor"]), lower=True))
+            # the optional precomputed factor: matrix = factor @ factor.T (lower or upper triangular)
+            return M.DensePositiveDefiniteMatrix(arr(l["p1"]), factor=M.TriangularMatrix(arr(l["with_factor"]), lower=l.get("with_factor_lower", True)))
         return M.DensePositiveDefiniteMatrix(arr(l["p1"]))
     if c == "DenseDefiniteMatrix":
+        if "with_factor" in l:
+            return M.DenseDefiniteMatrix(arr(l["p1"]), factor=M.TriangularMatrix(arr(l["with_factor"]), lower=l.get("with_factor_lower", True)),
+                                         is_posdef=l["is_posdef"])
         return M.DenseDefiniteMatrix(arr(l["p1"]), is_posdef=l["is_posdef"])
     if c == "DensePositiveDefiniteProductMatrix":
         return M.DensePositiveDefiniteProductMatrix(arr(l["p1"]), M.PositiveDiagonalMatrix(np.diag(arr(l["p2"])).copy()))
